@@ -39,7 +39,7 @@ theorem gssv_solves (laws : MagLaws K) (P : Params K Rat) (hP : Legal P) (hsq : 
     intro r hr i hi
     have inv : Inv P (luFactor P false) P.n := by
       rw [luFactor_eq_run] at h0 ⊢
-      exact run_inv laws P hP.u_pos hP.u_le_one hP.col_size false P.n h0
+      exact run_inv laws P (le_of_lt hP.u_pos) hP.u_le_one hP.col_size false P.n h0
     have hbr : (B[r]).size = P.m := hB _ (List.getElem_mem hr)
     have := gstrsN_solves P (luFactor P false) hsq inv hP.col_size permC hpc hperm (B[r]) hbr i hi
     simpa [List.getD, hr] using this
